@@ -50,7 +50,7 @@ def run_cases(ctx, model_exe, impl_exe, lines, canary=False):
     return impl, model
 
 
-def correspondence(ctx, tier, release=False, canary=False):
+def correspondence(ctx, tier, release=False, canary=False, keep_cases=False):
     """Returns (stats, diffs) where diffs is a list of (case line, impl, model)."""
     model_exe, impl_exe, err = build(ctx, release)
     if err:
@@ -76,6 +76,9 @@ def correspondence(ctx, tier, release=False, canary=False):
     os.remove(path)
     stats = {"evaluations": len(lines), "distinct_nontrivial": len(classes), "histogram": hist,
              "samples": [describe(lines[i]) | {"impl": impl[i], "model": model[i]} for i in (0, len(lines) // 3, len(lines) // 2, len(lines) - 1)]}
+    if keep_cases:
+        stats["lines"] = lines
+        stats["impl"] = impl
     return (stats, diffs), None
 
 
